@@ -488,6 +488,20 @@ func runHarness(h Harness, repo, verif, tier string, seed int, obligation string
 	res.out = string(out)
 	res.wall = round2(time.Since(t0).Seconds())
 	res.cmd = "cd " + repo + " && VERIF_BOUND=" + bound + " go " + strings.Join(args, " ")
+	if n := strings.Count(res.out, "WARNING: DATA RACE"); n > 0 {
+		// first race report, condensed to the two accesses
+		rep := res.out[strings.Index(res.out, "WARNING: DATA RACE"):]
+		var acc []string
+		for _, l := range strings.Split(rep, "\n") {
+			t := strings.TrimSpace(l)
+			if (strings.HasPrefix(t, "Write at") || strings.HasPrefix(t, "Read at") || strings.HasPrefix(t, "Previous write at") || strings.HasPrefix(t, "Previous read at")) && len(acc) < 2 {
+				acc = append(acc, t)
+			} else if strings.HasPrefix(t, "github.com/llir/llvm") && len(acc) > 0 && len(acc) <= 2 && !strings.Contains(acc[len(acc)-1], "(") {
+				acc[len(acc)-1] += " in " + strings.Fields(t)[0]
+			}
+		}
+		res.fails = append(res.fails, fmt.Sprintf("DATA RACE (%d reports): %s", n, strings.Join(acc, " / ")))
+	}
 	for _, l := range strings.Split(res.out, "\n") {
 		l = strings.TrimSpace(l)
 		if i := strings.Index(l, "REPLAY-FAIL "); i >= 0 {
